@@ -760,7 +760,9 @@ pub fn cmd_scan(args: &[String]) {
         v
     };
     let lens: Vec<usize> = if thorough { let mut v = lens; v.extend_from_slice(&[127, 128, 129, 160, 192, 255, 256, 257, 300]); v } else { lens };
-    let aligns: Vec<usize> = if thorough { (0..32).collect() } else { vec![(seed % 32) as usize, ((seed / 32 + 13) % 32) as usize] };
+    // (every alignment of whole messages is the replayer's `alignall`; here the end-flush placement
+    // plus a handful of start alignments around the 8 / 16 / 32-byte boundaries)
+    let aligns: Vec<usize> = if thorough { vec![0, 1, 7, 8, 15, 16, 31, (seed % 32) as usize] } else { vec![(seed % 32) as usize, ((seed / 32 + 13) % 32) as usize] };
     let arena = Arena::new(1 << 16);
     let mut ws: Vec<BufWriter<std::fs::File>> = (0..shards).map(|i| BufWriter::new(std::fs::File::create(format!("{}.{}", out, i)).unwrap())).collect();
     let mut events = 0u64;
@@ -804,10 +806,12 @@ pub fn cmd_scan(args: &[String]) {
                                 }
                             }
                         }
-                        for (q, qb) in seconds {
+                        for (si, (q, qb)) in seconds.into_iter().enumerate() {
                             if q == p { continue; }
                             for (ai, &align) in aligns.iter().enumerate() {
                                 if (fill == 9 || (n >= 127 && !thorough)) && ai > 0 { continue; }
+                                // the lane-distance seconds (index 3 and up) at the end-flush placement only
+                                if n < 127 && si >= 3 && ai > 0 { continue; }
                                 let mut stops = [0usize; 256];
                                 for b in 0..256usize {
                                     for i in 0..n { data[i] = fill; }
@@ -884,7 +888,7 @@ pub fn cmd_scan(args: &[String]) {
     // word level: all prefixes of length 7 over a boundary-value alphabet, then every byte,
     // on the word-at-a-time backend (and, after a 32-byte in-class run, as the tail of the
     // selected provider)
-    let alpha: Vec<u8> = if thorough { vec![0x09, 0x1f, 0x20, 0x21, 0x7f, 0x80, 0xa0, 0xff] } else { vec![0x09, 0x1f, 0x7f, 0x80, 0xff] };
+    let alpha: Vec<u8> = if thorough { vec![0x09, 0x1f, 0x20, 0x7f, 0x80, 0xff] } else { vec![0x09, 0x1f, 0x7f, 0x80, 0xff] };
     let plen = 7usize;
     let total = alpha.len().pow(plen as u32);
     for &(backend, lead) in &[(1u8, 0usize), (0u8, 32usize)] {
